@@ -122,10 +122,21 @@ where
                 LTermInner::Val(LValue::Number(w)),
             ) => {
                 /* u and w grounded */
-                state
-                    .smap_to_mut()
-                    .extend(vwalk.clone(), LTerm::from(w / u));
-                state.run_constraints()
+                if *u == 0 {
+                    if *w == 0 {
+                        /* Every integer is a solution. */
+                        Ok(state.with_constraint(self))
+                    } else {
+                        Err(())
+                    }
+                } else if w % u == 0 {
+                    state
+                        .smap_to_mut()
+                        .extend(vwalk.clone(), LTerm::from(w / u));
+                    state.run_constraints()
+                } else {
+                    Err(())
+                }
             }
             (
                 LTermInner::Var(_, _),
@@ -133,10 +144,21 @@ where
                 LTermInner::Val(LValue::Number(w)),
             ) => {
                 /* v and w grounded */
-                state
-                    .smap_to_mut()
-                    .extend(uwalk.clone(), LTerm::from(w / v));
-                state.run_constraints()
+                if *v == 0 {
+                    if *w == 0 {
+                        /* Every integer is a solution. */
+                        Ok(state.with_constraint(self))
+                    } else {
+                        Err(())
+                    }
+                } else if w % v == 0 {
+                    state
+                        .smap_to_mut()
+                        .extend(uwalk.clone(), LTerm::from(w / v));
+                    state.run_constraints()
+                } else {
+                    Err(())
+                }
             }
             (LTermInner::Var(_, _), LTermInner::Var(_, _), LTermInner::Var(_, _))
             | (LTermInner::Var(_, _), LTermInner::Var(_, _), LTermInner::Val(LValue::Number(_)))
